@@ -75,7 +75,7 @@ void *ea_memmove(void *dst, const void *src, size_t n);
 
 /* ghost state (see above) */
 unsigned long long ea_gA, ea_gPA, ea_gK, ea_gPK, ea_gI, ea_gV;
-unsigned long long ea_gPA2, ea_gPK2, ea_gCount2;
+unsigned long long ea_gPA2, ea_gPK2, ea_gCount2, ea_gCount0;
 int ea_collapsed;
 
 #define EA_CAP (1ULL << 30)	/* int index arithmetic of the real code: (low+high)/2 needs count <= 2^30 */
@@ -120,6 +120,21 @@ int ea_dec;
 #ifndef VERIF_GHOST_GET_REFCOUNT_EL_PROBE
 #define VERIF_GHOST_GET_REFCOUNT_EL_PROBE \
 	__CPROVER_assume(FSCKDS_PART(refcount->list[mid].ea_key, (unsigned long long) mid, refcount->count, ea_key, EA_BPA));
+#endif
+
+/*
+ * After el = get_refcount_el(..): the entry returned is the one at the lower bound of the key (an obligation); el is
+ * re-assigned that same address in its typed form &list[index] (get_refcount_el returns it from five places, the merged
+ * pointer would otherwise be a byte offset into the list and every access through it a byte-level update of the
+ * whole list).
+ */
+#ifndef VERIF_GHOST_EA_REFCOUNT_EL
+#define VERIF_GHOST_EA_REFCOUNT_EL \
+	if (el) { \
+		__CPROVER_assert(EA_BPA < refcount->count && el == &refcount->list[EA_BPA], \
+				 "get_refcount_el returns the entry at the lower bound of the key"); \
+		el = &refcount->list[EA_BPA]; \
+	}
 #endif
 
 #include "e2fsck/ea_refcount.c"
@@ -271,9 +286,9 @@ static int EA_POST_OK(const struct ea_refcount *rc, unsigned long long QK, unsig
 }
 
 /* the state the operation starts from */
-#define EA_PRE(rc, key) ((key) == ea_gA && ea_collapsed == 0 && EA_STATE_OK(rc, ea_gPA, ea_gPK, ea_gV))
+#define EA_PRE(rc, key) ((key) == ea_gA && ea_collapsed == 0 && (rc)->count == ea_gCount0 && EA_STATE_OK(rc, ea_gPA, ea_gPK, ea_gV))
 /* lower bound of K in the post-state: an entry was added (below K) or not */
-#define EA_BCOUNT(rc) (ea_collapsed ? ea_gCount2 : OLD((rc)->count))
+#define EA_BCOUNT(rc) (ea_collapsed ? ea_gCount2 : ea_gCount0)	/* ea_gCount0: count on entry */
 #define EA_ADDED(rc) ((rc)->count == EA_BCOUNT(rc) + 1)
 #define EA_SAMECOUNT(rc) ((rc)->count == EA_BCOUNT(rc))
 #define EA_QK(rc) (EA_BPK + ((EA_ADDED(rc) && ea_gA < ea_gK) ? 1 : 0))
